@@ -1166,7 +1166,10 @@ def exact_inner(xv, yv, w, single=False):
                              - Fraction(complex(a).real) * Fraction(complex(b).imag)) for wi, a, b in zip(w, xv, yv))
     if not (representable(re, single) and representable(im, single)):
         return None
-    return float(re), float(im)
+    # third entry: sum of |terms|, the scale against which accumulated rounding is measured
+    sc = sum(Fraction(wi) * (abs(Fraction(complex(a).real)) + abs(Fraction(complex(a).imag)))
+             * (abs(Fraction(complex(b).real)) + abs(Fraction(complex(b).imag))) for wi, a, b in zip(w, xv, yv))
+    return float(re), float(im), (float(sc) if representable(sc, single) else max(abs(float(re)), abs(float(im))))
 """
 exec(_RANGE_SRC)
 
@@ -1212,8 +1215,11 @@ def range_probes(out, rng, tier, only=None):
                 if only is not None and not only(dt, p, wk, kind):
                     continue
                 ns = list(sizes)
-                if (wk, kind) == ('none', 'tensor') and ((p == 2 and dt in ('int8', 'float64')) or thorough):
+                if (wk, kind) == ('none', 'tensor') and ((p == 2 and dt in ('int8', 'float64')) or
+                                                         (thorough and p in (1, 2))):
                     ns.append(60000)                                        # a few large cases
+                if thorough and kind != 'tensor':
+                    ns = [3, 99, 200]
                 if not thorough and kind != 'tensor':
                     if dt not in ('int8', 'uint64', 'float64', 'complex128'):
                         continue
@@ -1259,7 +1265,7 @@ def range_probes(out, rng, tier, only=None):
                                 "for a, b in zip(xv, yv)], w, p)\nok = cl(observed, expected)\n"}
                     if p == 2:
                         checks['inner'] = ("observed = complex(X.inner(Y)); expected = exact_inner(xv, yv, w, dt in ('float32', 'complex64'))\n"
-                                           "sc = 0.0 if expected is None else max(abs(expected[0]), abs(expected[1]), 1e-300)\n"
+                                           "sc = 0.0 if expected is None else max(expected[2], 1e-300) * (10 if tol > 1e-8 else 1)\n"
                                            "ok = expected is None or (bool(np.isfinite(observed.real)) and "
                                            "abs(observed.real - expected[0]) <= tol * sc "
                                            "and abs(observed.imag - expected[1]) <= tol * sc)\n")
